@@ -64,6 +64,15 @@ CHECKS["C02"] = ("exploration",
     "All histories of length <=3 / <=4 over an 11-symbol alphabet plus 400 / 4000 random histories with restores. Checked per call: exactly the expected callback sequence (create only on an empty directory; strategy / update / migrate exactly once when due, never otherwise), callbacks see the on-disk metadata, callback errors surface as the buildpack error; afterwards types = types(), metadata / env for all four scopes incl. per-process / exec.d / SBOM files equal the returned result (or, for keep, the previous snapshot with only types refreshed), other files as the callback left them, other layers untouched; the returned LayerData (name, path, types, metadata, env probed for 6 scopes x 2 starting envs) must behave like an independent reading of the disk.",
     "Trusted: the model in tools/c02.py, tools/envmodel.py. One defect found here was repaired (fix: 57bd66a).")
 
+CHECKS["C05"] = ("exploration",
+    "runtime monitoring: the real libcnb_runtime executed as detect/build processes (a scripted Buildpack impl reached through symlinks) over the full factor product; exit status, marker file and before/after snapshots judged by a decision table written from the statement",
+    "Full product of executable name (detect, build, bin, detect.sh) x argc 0..4 x buildpack.toml kind (api 0.10, 0.9, 1.0, 0.10 with broken rest, malformed, absent, api not a string, CNB_BUILDPACK_DIR unset) x presence of each of the five CNB_TARGET_* variables x platform/plan condition x pre-existing (longer) output files, ~36k process runs per quick run (thorough: 4 behaviours per configuration); every behaviour (detect pass / pass+plan / fail / error; build with every subset of launch, store, build SBOMs, launch SBOMs, build error, layer error) on every dispatching configuration. Checked: exit class, detect()/build() reached exactly once or never, on_error exactly once after dispatch and at most once before, written files decode (tomllib + spec reader) to what was returned, outputs that were not provided are neither created nor modified, nothing else under the work tree changes.",
+    "Trusted: the decision table in tools/c05.py. Exact non-zero codes are not asserted.")
+CHECKS["C06"] = ("exploration",
+    "runtime monitoring: the real runtime executed as detect/build on generated platform directories / plans / stores / descriptors / target variables; a JSON dump of the context written by the scripted buildpack is compared field by field with the generated inputs",
+    "Generated <platform>/env directories (byte-string file names, UTF-8 contents incl. empty / newlines / 5 kB, sub-directories, symlinks to files and directories, dangling links, no env dir, files with non-UTF-8 content), buildpack plans / store tables / descriptor metadata from nested TOML values of every kind, all presence/value combinations of the target variables incl. non-UTF-8 values, work directories with spaces and Unicode, store.toml absent / valid / empty / non-UTF-8 / a directory / malformed. The dump must equal the inputs exactly; unrepresentable inputs must end in the error path (on_error once, non-zero, no context), never in a context with the entry missing or altered.",
+    "Trusted: tools/c06.py generator = oracle (equality with its own inputs), tomllib/tomlw. One defect found here was repaired (fix: 2d61a47).")
+
 PENDING = {}
 
 
